@@ -1,4 +1,4 @@
-import WhVerif.Lemmas.C08Main
+import WhVerif.Lemmas.C08Example
 /-!
 # C08 — genotyping reports the exact posterior of its HMM; GT, GL and GQ agree.
 
@@ -99,28 +99,20 @@ theorem gq_is_posterior_complement [Field K] (inst : Inst) (p : Params K) (S : S
 
 /-! ## non-vacuity: a concrete instance, exact rational arithmetic (kernel evaluation) -/
 
-/-- one individual; three reads over three columns, a blank entry, a quality-0 entry -/
-def exInst : Inst :=
-  { nCols := 3, nInd := 1, triples := []
-    reads := [⟨0, [(0, 0, 10), (1, 1, 20)]⟩, ⟨0, [(0, 1, 10), (2, 1, 30)]⟩, ⟨0, [(1, 0, 0), (2, 1, 10)]⟩] }
-
-def exParams : Params Rat :=
-  { em := fun q => if q = 0 then 9999 / 10000 else 1 / (q + 1)
-    rho := fun c => 1 / (c + 3)
-    prior := fun i _ g => if g = i % 3 then 1 / 2 else 1 / 4 }
-
-def exScal : Scal Rat :=
-  { fw := fun c => if c % 2 = 0 then 2 else 3, bw := fun c => if c = 1 then 1 / 5 else 4, bw2 := fun _ => 7 }
-
-theorem exScal_nonZero : exScal.NonZero := by
-  intro c
-  refine ⟨?_, ?_, ?_⟩ <;> simp only [exScal] <;> (try split) <;> norm_num
-
 example : exInst.WF = true := by decide
 example : total exInst.frame (exInst.weights exParams) exScal 1 ≠ 0 := by decide +kernel
 /-- the theorem's two sides evaluated independently (scaled model vs. plain enumeration): equal, and not trivial -/
 example : likelihood exInst exParams exScal 1 0 1 = posterior exInst exParams 1 0 1 := by decide +kernel
 example : likelihood exInst exParams exScal 1 0 1 ≠ 1 / 3 := by decide +kernel
+/-- the hypotheses of the theorems are satisfiable together -/
+example : likelihood exInst exParams exScal 1 0 1 = posterior exInst exParams 1 0 1 :=
+  forward_backward_posterior exInst exParams exScal (by decide) exScal_nonZero 1 (by decide) 0 1
+example : likelihood exInst exParams exScal 1 0 2 = likelihood exInst exParams Scal.one 1 0 2 :=
+  scaling_irrelevant exInst exParams exScal Scal.one exScal_nonZero Scal.one_nonZero 1 0 2
+example : ∑ g ∈ range 3, likelihood exInst exParams exScal 1 0 g = 1 :=
+  likelihoods_sum_to_one exInst exParams exScal 1 0 (by decide +kernel)
+example : gqMass (likelihood exInst exParams exScal 1 0) 1 = 1 - posterior exInst exParams 1 0 1 :=
+  gq_is_posterior_complement exInst exParams exScal (by decide) exScal_nonZero 1 (by decide) 0 1 (by decide) (by decide +kernel)
 /-- a trio satisfies the guard as well (mother 0, father 1, child 2) -/
 example : ({ nCols := 2, nInd := 3, triples := [(1, 0, 2)],
              reads := [⟨0, [(0, 0, 10), (1, 1, 20)]⟩, ⟨2, [(0, 1, 10), (1, 1, 30)]⟩] } : Inst).WF = true := by decide
